@@ -1,0 +1,36 @@
+//go:build verif
+
+// Contracts for the deductive verification in /verif (comment-only file: with
+// the "verif" build tag off it does not exist for the compiler, with it on it
+// compiles to nothing). The //@ blocks are read by /verif/bin/vc.
+
+package serf
+
+//@ pure func maxU64() uint64 { return 18446744073709551615 }
+
+// ---------------------------------------------------------------- C19 Lamport clock
+
+//@ rely LamportClock.counter nondecreasing
+
+//@ func (l *LamportClock) Time() (t LamportTime)
+//@   ensures reads_clock [C19]: l.Time() >= t && uint64(t) >= old(uint64(l.Time()))
+//@ end
+
+//@ func (l *LamportClock) Increment() (t LamportTime)
+//@   ensures incr_past_entry [C19]: uint64(t) > old(uint64(l.Time()))
+//@   ensures incr_le_now [C19]: l.Time() >= t
+//@ end
+
+//@ func (l *LamportClock) Witness(v LamportTime)
+//@   case wrap_at_max: uint64(v) == maxU64()
+//@   ensures moves_past [C19]: l.Time() > v
+//@   ensures never_back [C19]: l.Time() >= old(l.Time())
+//@   loop 1 invariant retry_never_back [C19]: l.Time() >= old(l.Time())
+//@ end
+
+//@ lemma increments_distinct [C19] (l *LamportClock) {
+//@   a := l.Increment()
+//@   b := l.Increment()
+//@   assert("distinct", "C19", a != b)
+//@   assert("ordered", "C19", b > a)
+//@ }
